@@ -93,7 +93,9 @@ def check(ck):
                           ("__Dbl", {"_Dbl__priv", "pub", "__dunder__", "_single"})):
         ev = shape.Evaluator(prog, "jsonclass", lenient=True)
         clazz = shape.Opaque("class", {"__slots__": shape.K(("__priv", "pub", "__dunder__", "_single")),
-                                       "__name__": shape.K(cname), "__bases__": shape.K(())})
+                                       "__name__": shape.K(cname), "__bases__": shape.K(()),
+                                       "__dict__": shape.D({"__slots__": shape.K(("__priv", "pub", "__dunder__", "_single"))})})
+        clazz.attrs["__mro__"] = shape.L([clazz, shape.Opaque("class", {"__dict__": shape.D({}), "__name__": shape.K("object"), "__bases__": shape.K(())})])
         fields = shape.L([])
         res = ev.run(fs, {fs.params[0]: clazz, fs.params[1]: fields})
         got = set(x.v for x in fields.elts if isinstance(x, shape.K))
@@ -101,7 +103,31 @@ def check(ck):
                    "attribute names %s" % sorted(got),
                    "for a class named %s the slot names become %s; the attributes are actually named %s (class-private "
                    "mangling)" % (cname, sorted(got), sorted(expect)), q.loc(fs, fs.node))
-    ck.floor("C07.3", 3)
+    # inheritance: each private slot is mangled with the name of the class that declares it
+    for form in ("single base", "two levels"):
+        K_ = shape.K
+        gp = shape.Opaque("class", {"__slots__": K_(("__g",)), "__name__": K_("Grand"), "__bases__": K_(()), "__dict__": shape.D({"__slots__": K_(("__g",))})})
+        base = shape.Opaque("class", {"__slots__": K_(("__b", "pb")), "__name__": K_("_Base"), "__dict__": shape.D({"__slots__": K_(("__b", "pb"))}),
+                                      "__bases__": shape.L([gp]) if form == "two levels" else K_(())})
+        child = shape.Opaque("class", {"__slots__": K_(("__c",)), "__name__": K_("Child"), "__bases__": shape.L([base]),
+                                       "__dict__": shape.D({"__slots__": K_(("__c",))})})
+        obj_cls = shape.Opaque("class", {"__dict__": shape.D({}), "__name__": K_("object"), "__bases__": K_(())})
+        chain = [child, base] + ([gp] if form == "two levels" else []) + [obj_cls]
+        for c_ in chain:
+            c_.attrs["__mro__"] = shape.L(chain[chain.index(c_):])
+        ev = shape.Evaluator(prog, "jsonclass", lenient=True)
+        fields = shape.L([])
+        try:
+            res = ev.run(fs, {fs.params[0]: child, fs.params[1]: fields})
+        except AnalysisError as ex_:
+            ck.bad("C07.3", "%s: inherited private slots (%s)" % (q.fn(fs), form), "the slot enumeration could not be evaluated (%s)" % ex_, q.loc(fs, fs.node))
+            continue
+        got = set(x.v for x in fields.elts if isinstance(x, shape.K))
+        expect = {"_Child__c", "_Base__b", "pb"} | ({"_Grand__g"} if form == "two levels" else set())
+        ck.require(got == expect, "C07.3", "%s: inherited private slots (%s)" % (q.fn(fs), form), "attribute names %s" % sorted(got),
+                   "for class Child(_Base) the slot names become %s; the attributes are named %s (a private slot is mangled with the name of "
+                   "the class that declares it)" % (sorted(got), sorted(expect)), q.loc(fs, fs.node))
+    ck.floor("C07.3", 5)
 
     # ---- C07.4 RPC integration ----------------------------------------------------------------------------
     fjd = prog.func("jsonrpc", "dump")
